@@ -985,6 +985,8 @@ fn parse_array_literal(
             break;
         }
 
+        let start_idx = p.token_idx;
+
         if let Some(item) = parse_expr_with_recovery_set(p, "array item", recovery_set) {
             item.precede(p).complete(p, NodeKind::ArrayItem);
         }
@@ -995,6 +997,12 @@ fn parse_array_literal(
 
         if !p.at(TokenKind::RBrack) && !p.at(TokenKind::RBrace) {
             p.expect_with_no_skip(TokenKind::Comma);
+        }
+
+        // a token of the caller's recovery set is neither an item nor a comma and is never
+        // skipped, so without this check `x : .[ :` would loop forever
+        if p.token_idx == start_idx {
+            break;
         }
     }
     p.expect_with_recovery_set_no_default(TokenKind::RBrack, DEFAULT_NO_BRACES);
